@@ -371,9 +371,66 @@ def c06_theorems(u, prop='C06'):
         asserts += ['%s.v@ == %dreal' % (ms.at('q', i, j), 1 if i == j else 0) for i in range(4) for j in range(4)]
         u.add(ms.path, thm_fn('thm_inverse_%s' % layout, ['m: %s' % T], ['%s != 0real' % X.verus(Mu.det())],
                               body, asserts, prop))
+    lemmas += fast_inverse_theorems(u, prop)
     for lm in lemmas:
         u.add_root(lm.verus_text(prop))
     return lemmas
+
+
+def fast_inverse_theorems(u, prop='C06'):
+    """the rigid (rotation + translation) and TRS fast inverses really invert, on the class of matrices they are documented for"""
+    import lemma as L
+    A = SM.params('m', 4)
+    Id = SM.identity(4)
+    aff = [A[3, j].eq(1 if j == 3 else 0) for j in range(4)]
+    col = lambda M, i: [M[k, i] for k in range(3)]
+    dotc = lambda M, i, j: X.sum_([M[k, i] * M[k, j] for k in range(3)])
+    ortho = [dotc(A, i, j).eq(1 if i == j else 0) for i in range(3) for j in range(i, 3)]
+    RI = rigid_inverse_spec(A)
+    lm_rl = L.Lemma('lemma_rigid_inverse_left', A.flat(), aff + ortho, (RI @ A).eqs(Id),
+                    doc='[R^T | -R^T t] * [R | t] == I for orthonormal R')
+    # right inverse: uses R R^T = I as well (equivalent to R^T R = I for square R; stated as a hypothesis to keep the goal polynomial)
+    rowo = [X.sum_([A[i, k] * A[j, k] for k in range(3)]).eq(1 if i == j else 0) for i in range(3) for j in range(i, 3)]
+    ARI = A @ RI
+    rowdot = lambda M, i, j: X.sum_([M[i, k] * M[j, k] for k in range(3)])
+    lm_rr = L.Lemma('lemma_rigid_inverse_right', A.flat(), aff + ortho + rowo,
+                    [ARI[i, j].eq(Id[i, j]) for i in range(4) for j in range(4) if not (j == 3 and i < 3)],
+                    doc='[R | t] * [R^T | -R^T t] == I for orthonormal R (all entries but the translation column)')
+    lm_rt = L.Lemma('lemma_rigid_inverse_right_t', A.flat(), [],
+                    [ARI[i, 3].eq(A[i, 3] * X.const(1) - X.sum_([rowdot(A, i, j) * A[j, 3] for j in range(3)])) for i in range(3)],
+                    doc='translation column of [R | t] * [R^T | -R^T t]: t - (R R^T) t, re-associated (identity)')
+    sv = [X.var('s%d' % i) for i in range(3)]
+    AI = affine_inverse_spec(A, sv)
+    orth2 = [dotc(A, i, j).eq(0) for i in range(3) for j in range(i + 1, 3)]
+    sdef = [sv[i].eq(dotc(A, i, i)) for i in range(3)] + [sv[i].ne(0) for i in range(3)]
+    lm_al = L.Lemma('lemma_affine_inverse_left', A.flat() + sv, aff + orth2 + sdef, (AI @ A).eqs(Id),
+                    doc='rows of A^T divided by the squared column lengths invert [A | t] when the columns of A are mutually orthogonal')
+    out = [lm_rl, lm_rr, lm_rt, lm_al]
+    for layout in ('rows', 'cols'):
+        ms = mat(4, layout)
+        Mu = SM.of(ms, 'm')
+        T = '%s<R>' % ms.name
+        affu = [affine_last_row(ms, 'm')]
+        orthu = ['%s == %dreal' % (X.verus(dotc(Mu, i, j)), 1 if i == j else 0) for i in range(3) for j in range(i, 3)]
+        rowu = ['%s == %dreal' % (X.verus(X.sum_([Mu[i, k] * Mu[j, k] for k in range(3)])), 1 if i == j else 0)
+                for i in range(3) for j in range(i, 3)]
+        body = ('    let inv = m.inverted_affine_transform_no_scale();\n    let q = inv * m;\n    let p = m * inv;\n'
+                '    let mut m2 = m;\n    m2.invert_affine_transform_no_scale();\n'
+                '    proof { crate::lemma_rigid_inverse_left(%s); crate::lemma_rigid_inverse_right(%s); crate::lemma_rigid_inverse_right_t(%s); }'
+                % (lemma_args(Mu), lemma_args(Mu), lemma_args(Mu)))
+        asserts = ['%s.v@ == %dreal' % (ms.at('q', i, j), 1 if i == j else 0) for i in range(4) for j in range(4)]
+        asserts += ['%s.v@ == %dreal' % (ms.at('p', i, j), 1 if i == j else 0) for i in range(4) for j in range(4)]
+        asserts += ['%s.v@ == %s.v@' % (ms.at('m2', i, j), ms.at('inv', i, j)) for i in range(4) for j in range(4)]
+        u.add(ms.path, thm_fn('thm_rigid_inverse_%s' % layout, ['m: %s' % T], affu + orthu + rowu, body, asserts, prop))
+        # TRS: mutually orthogonal columns whose squared lengths are not negligible
+        o2 = ['%s == 0real' % X.verus(dotc(Mu, i, j)) for i in range(3) for j in range(i + 1, 3)]
+        big = ['abs_r(%s) > eps_r()' % X.verus(dotc(Mu, i, i)) for i in range(3)]
+        body = ('    let inv = m.inverted_affine_transform();\n    let q = inv * m;\n'
+                '    proof { axiom_eps(); crate::lemma_affine_inverse_left(%s, %s); }'
+                % (lemma_args(Mu), ', '.join(X.verus(dotc(Mu, i, i)) for i in range(3))))
+        asserts = ['%s.v@ == %dreal' % (ms.at('q', i, j), 1 if i == j else 0) for i in range(4) for j in range(4)]
+        u.add(ms.path, thm_fn('thm_affine_inverse_%s' % layout, ['m: %s' % T], affu + o2 + big, body, asserts, prop))
+    return out
 
 
 def det4_shape_lemma():
